@@ -39,8 +39,10 @@ type c01Scn struct {
 	Cmds     []string `json:"cmds"`
 	Outs     []string `json:"outs"`
 	Expect   []string `json:"expect"`
-	DevLog   []string `json:"devlog"`
-	Early    bool     `json:"early"`
+	// ExpectEmpty: the result the contract gives for an empty command
+	ExpectEmpty string   `json:"expectempty"`
+	DevLog      []string `json:"devlog"`
+	Early       bool     `json:"early"`
 	// replay: run only this variant
 	Variant string `json:"variant,omitempty"`
 }
@@ -97,6 +99,19 @@ func c01Run(s *c01Scn, va c01Variant, seedv int64) verdict {
 		}
 	}
 
+	// one session in seven ends with an empty command (a bare return, to get a fresh prompt): nothing is echoed, the result is
+	// empty, the device receives exactly one return for it
+	emptyLast := s.ID%7 == 2 && !(va.api == "multi" && s.ID%4 == 2) // (not when the commands come from a file)
+	expects := append([]string(nil), s.Expect...)
+
+	if emptyLast {
+		cmds = append(cmds, "")
+		outs = append(outs, "")
+		expects = append(expects, s.ExpectEmpty) // Text!Post of the device's answer to a bare return (ChannelScn.tla)
+	}
+
+	nc := len(cmds)
+
 	next := 0
 	unexpected := []string{}
 	cli := &simdev.CLI{
@@ -127,6 +142,8 @@ func c01Run(s *c01Scn, va c01Variant, seedv int64) verdict {
 	pipe := simdev.NewPipe(cli, seedv)
 	pipe.Seg = va.seg
 	pipe.ReadDelay = va.devDelay
+	// one session in five: the transport hands every read out in the same buffer (what the library keeps, it has to copy)
+	pipe.ReuseBuf = s.ID%5 == 1
 
 	opts := []util.Option{
 		options.WithCustomTransport(pipe),
@@ -270,12 +287,12 @@ func c01Run(s *c01Scn, va c01Variant, seedv int64) verdict {
 	}
 
 	if v.OK {
-		if len(got) != s.NC {
-			fail(&v, "C01:"+va.driver+":"+va.api+":response-count", "got %d responses for %d commands", len(got), s.NC)
+		if len(got) != nc {
+			fail(&v, "C01:"+va.driver+":"+va.api+":response-count", "got %d responses for %d commands", len(got), nc)
 		}
 
-		for i := 0; v.OK && i < s.NC; i++ {
-			want := concretise(s.Expect[i], nil)
+		for i := 0; v.OK && i < nc; i++ {
+			want := concretise(expects[i], nil)
 			if got[i] != want {
 				kind := "result-mismatch"
 				if i > 0 {
@@ -314,10 +331,15 @@ func c01Run(s *c01Scn, va c01Variant, seedv int64) verdict {
 	pipe.Unlock()
 
 	if v.OK {
-		if strings.Join(lines, "\x00") != strings.Join(cmds, "\x00") || len(unexp) > 0 {
-			fail(&v, "C01:"+va.driver+":devlog-mismatch", "device received lines %q, expected %q", lines, cmds)
-		} else if va.driver == "generic" && bare != 0 {
-			fail(&v, "C01:generic:extra-returns", "device received %d bare returns besides the commands", bare)
+		wantLines, wantBare := cmds, 0
+		if emptyLast {
+			wantLines, wantBare = cmds[:nc-1], 1
+		}
+
+		if strings.Join(lines, "\x00") != strings.Join(wantLines, "\x00") || len(unexp) > 0 {
+			fail(&v, "C01:"+va.driver+":devlog-mismatch", "device received lines %q, expected %q", lines, wantLines)
+		} else if va.driver == "generic" && bare != wantBare {
+			fail(&v, "C01:generic:extra-returns", "device received %d bare returns besides the commands, expected %d", bare, wantBare)
 		}
 	}
 
